@@ -423,8 +423,16 @@ func VH_ClientSendFail() {
 		vReach("C08/send-failed")
 		vAssert(err != nil, "C08/nil-although-send-failed")
 	} else if s.recvErrAt >= 0 && s.recvs > s.recvErrAt {
+		// hard receive errors are outside the property's robustness clause (it names EINTR/EAGAIN):
+		// giving up and reading on are both fine, but success is never reported against the kernel
 		vReach("C08/receive-failed")
-		vAssert(err != nil, "C08/nil-although-receive-failed-hard")
+		allOK := len(s.reqs) > 0
+		for _, rq := range s.reqs {
+			if !(rq.acked && rq.errno == 0) {
+				allOK = false
+			}
+		}
+		vAssert(err != nil || allOK, "C08/nil-although-kernel-did-not-acknowledge")
 	} else {
 		allOK := true
 		for _, rq := range s.reqs {
@@ -664,7 +672,7 @@ func VH_ClientHistory() {
 				s.failSendAt = s.sendCalls
 				err := c.SetEnabled(vBool("enabled"), NoWait)
 				s.failSendAt = -1
-				vAssert(err != nil, "C17/nowait-send-failure-not-reported")
+				_ = err // (whether the failure is reported is C08's subject, and only for WaitForReply)
 				vAssert(len(s.reqs) == before, "C17/harness-request-log")
 				continue
 			}
